@@ -84,8 +84,10 @@ type wireBroker struct {
 	down     bool
 	ends     []net.Conn // every pipe end, closed at the end of the scenario
 	nconn    int
-	produceN int      // produce-class frames whose size header was read
-	log      []uint64 // appended under the history lock and mu (lock order: history, then mu)
+	produceN int        // produce-class frames whose size header was read
+	log      []uint64   // partition 0; appended under the history lock and mu (lock order: history, then mu)
+	nparts   int        // partitions of the topic the metadata answer advertises, 0 = 1
+	cut      *wcutState // wcut family: produce answers may be cut (wcut.go), nil otherwise
 	anom     string
 
 	host     string       // what the metadata answer advertises for broker 1
@@ -312,18 +314,27 @@ func (b *wireBroker) serve(idx int, c net.Conn, client *wireConn) {
 		case *apiversions.Request:
 			res = &apiversions.Response{ApiKeys: wireApiTable}
 		case *metadata.Request:
+			var parts []metadata.ResponsePartition
+			for p := 0; p < b.nparts || p == 0; p++ {
+				parts = append(parts, metadata.ResponsePartition{
+					PartitionIndex: int32(p), LeaderID: 1, ReplicaNodes: []int32{1}, IsrNodes: []int32{1},
+				})
+			}
 			res = &metadata.Response{
 				ClusterID:    "fake",
 				ControllerID: 1,
 				Brokers:      []metadata.ResponseBroker{{NodeID: 1, Host: host, Port: port}},
-				Topics: []metadata.ResponseTopic{{
-					Name: wireTopic,
-					Partitions: []metadata.ResponsePartition{{
-						PartitionIndex: 0, LeaderID: 1, ReplicaNodes: []int32{1}, IsrNodes: []int32{1},
-					}},
-				}},
+				Topics:       []metadata.ResponseTopic{{Name: wireTopic, Partitions: parts}},
 			}
 		case *produce.Request:
+			if b.cut != nil {
+				// wcut family: the answer may be delivered only up to some byte, after which
+				// the connection is lost
+				if !b.cut.serve(b, idx, c, ver, corr, m) {
+					return
+				}
+				continue
+			}
 			res = b.produce(m, afterRelease)
 		default:
 			b.anomaly(fmt.Sprintf("api%d", msg.ApiKey()))
@@ -342,15 +353,18 @@ func (b *wireBroker) serve(idx int, c net.Conn, client *wireConn) {
 	}
 }
 
-// produce appends the records of a fully received produce request and records the A event at that
-// very moment.
-func (b *wireBroker) produce(r *produce.Request, afterRelease bool) protocol.Message {
-	if len(r.Topics) != 1 || len(r.Topics[0].Partitions) != 1 || r.Topics[0].Topic != wireTopic || r.Topics[0].Partitions[0].Partition != 0 {
+// produceIDs checks the shape of a produce request (one partition of the topic) and reads the ids
+// of its records.
+func (b *wireBroker) produceIDs(r *produce.Request) (partition int32, ids []uint64, ok bool) {
+	if len(r.Topics) != 1 || len(r.Topics[0].Partitions) != 1 || r.Topics[0].Topic != wireTopic {
 		b.anomaly("produce-shape")
-		return nil
+		return 0, nil, false
 	}
 	part := &r.Topics[0].Partitions[0]
-	var ids []uint64
+	if part.Partition < 0 || (part.Partition > 0 && int(part.Partition) >= b.nparts) {
+		b.anomaly(fmt.Sprintf("produce-partition-%d", part.Partition))
+		return 0, nil, false
+	}
 	if rr := part.RecordSet.Records; rr != nil {
 		for {
 			rec, err := rr.ReadRecord()
@@ -359,13 +373,13 @@ func (b *wireBroker) produce(r *produce.Request, afterRelease bool) protocol.Mes
 			}
 			if err != nil {
 				b.anomaly("records:" + err.Error())
-				return nil
+				return 0, nil, false
 			}
 			var val []byte
 			if rec.Value != nil {
 				if val, err = protocol.ReadAll(rec.Value); err != nil {
 					b.anomaly("value:" + err.Error())
-					return nil
+					return 0, nil, false
 				}
 				rec.Value.Close()
 			}
@@ -375,10 +389,24 @@ func (b *wireBroker) produce(r *produce.Request, afterRelease bool) protocol.Mes
 			id, ok := fakert.MessageID(val, rec.Headers)
 			if !ok {
 				b.anomaly("record-without-id")
-				return nil
+				return 0, nil, false
 			}
 			ids = append(ids, id)
 		}
+	}
+	return part.Partition, ids, true
+}
+
+// produce appends the records of a fully received produce request and records the A event at that
+// very moment.
+func (b *wireBroker) produce(r *produce.Request, afterRelease bool) protocol.Message {
+	partition, ids, ok := b.produceIDs(r)
+	if !ok {
+		return nil
+	}
+	if partition != 0 {
+		b.anomaly(fmt.Sprintf("produce-partition-%d", partition))
+		return nil
 	}
 	base := int64(-1)
 	seq := b.hist.Do(func(int) string {
